@@ -7,7 +7,7 @@ from __future__ import annotations
 import z3
 
 import specs.rfc9535_filter as fspec
-from contracts.common import env_obj, method, mod, spec_fn
+from contracts.common import env_obj, method, mod, no_foreign_writes, spec_fn
 from pyvc import lib
 from pyvc import sorts as S
 from pyvc.harness import call_contract, contract
@@ -126,7 +126,7 @@ def _ext_compare_contract(it, fv, args, kwargs):
     return it.run_function(fv, args, kwargs)
 
 
-@contract("InfixExpression.evaluate==spec", ("C02", "C13"), [F + "InfixExpression.evaluate", F + "InfixExpression.__init__"])
+@contract("InfixExpression.evaluate==spec", ("C02", "C13", "C09"), [F + "InfixExpression.evaluate", F + "InfixExpression.__init__"])
 def _infix(ctx):
     """Modular: compare() appears through its contract only (an uninterpreted function of its
     arguments on both sides + its operand preconditions as obligations of this caller); what is
@@ -142,7 +142,7 @@ def _infix(ctx):
         self, c = mk(it)
         return it.run_function(spec_fn(fspec, "infix_evaluate"), [self, c], {})
 
-    ctx.equiv("InfixExpression.evaluate", code, spec)
+    ctx.equiv("InfixExpression.evaluate", code, spec, post=no_foreign_writes)
 
 
 @contract("InfixExpression.evaluate_async==evaluate", ("C08",), [F + "InfixExpression.evaluate", F + "InfixExpression.evaluate_async"])
@@ -177,13 +177,14 @@ def _unary_setup(ctx, cls, field):
 def _register_unary(cls, specname, props):
     n = cls.__name__
 
-    @contract(f"{n}.evaluate==spec", props, [F + f"{n}.evaluate"] + ([F + f"{n}._evaluate"] if n == "PrefixExpression" else []))
+    @contract(f"{n}.evaluate==spec", tuple(props) + ("C09",), [F + f"{n}.evaluate"] + ([F + f"{n}._evaluate"] if n == "PrefixExpression" else []))
     def _c(ctx, cls=cls, specname=specname):
         mk = _unary_setup(ctx, cls, None)
         ctx.equiv(
             f"{cls.__name__}.evaluate",
             lambda it: it.run_function(method(cls, "evaluate"), list(mk(it)), {}),
             lambda it: it.run_function(spec_fn(fspec, specname), list(mk(it)), {}),
+            post=no_foreign_writes,
         )
 
     @contract(f"{n}.evaluate_async==evaluate", ("C08",), [F + f"{n}.evaluate", F + f"{n}.evaluate_async"])
@@ -295,13 +296,14 @@ def _path_setup(ctx, cls):
 def _register_path(cls, specname, props):
     n = cls.__name__
 
-    @contract(f"{n}.evaluate==spec", props, [F + f"{n}.evaluate"])
+    @contract(f"{n}.evaluate==spec", tuple(props) + ("C09",), [F + f"{n}.evaluate"])
     def _c(ctx, cls=cls, specname=specname):
         mk = _path_setup(ctx, cls)
         ctx.equiv(
             f"{cls.__name__}.evaluate",
             lambda it: it.run_function(method(cls, "evaluate"), list(mk(it)), {}),
             lambda it: it.run_function(spec_fn(fspec, specname), list(mk(it)), {}),
+            post=no_foreign_writes,
         )
 
     @contract(f"{n}.evaluate_async==evaluate", ("C08",), [F + f"{n}.evaluate", F + f"{n}.evaluate_async"])
@@ -411,13 +413,14 @@ def _register_function(name):
     clsname = STD[name][0]
     funcs = [F + "FunctionExtension.evaluate", F + "FunctionExtension._unpack_node_lists", f"jsonpath.function_extensions.{name}:{clsname}.__call__"]
 
-    @contract(f"FunctionExtension.evaluate[{name}]==spec", ("C02",), funcs)
+    @contract(f"FunctionExtension.evaluate[{name}]==spec", ("C02", "C09"), funcs)
     def _c(ctx, name=name):
         mk = _function_setup(ctx, name)
         ctx.equiv(
             f"FunctionExtension.evaluate[{name}]",
             lambda it: it.run_function(method(flt.FunctionExtension, "evaluate"), list(mk(it)), {}),
             lambda it: it.run_function(spec_fn(fspec, "function_evaluate"), list(mk(it)), {}),
+            post=no_foreign_writes,
         )
 
     @contract(f"FunctionExtension.evaluate_async[{name}]==evaluate", ("C08",), funcs + [F + "FunctionExtension.evaluate_async"])
